@@ -100,24 +100,24 @@ def t_projection(D, N, L, seed):
     return ok, f"D={D} N={N} L={L}: div(Leray)={div:.1e} idempotence={idem:.1e} make_incompressible vs Leray={agree:.1e} fixes div-free={fix:.1e} div(make_incompressible)={divw:.1e}"
 
 
-def t_convection_div_free(N, L, seed, kolmogorov):
+def t_convection_div_free(N, L, seed, kolmogorov, frac=2 / 3):
     ex, jnp = _ex()
     rng = np.random.default_rng(seed)
     dop = ex.spectral.build_derivative_operator(3, L, N)
     if kolmogorov:
-        nl = ex.nonlin_fun.ProjectedConvection3dKolmogorov(3, N, derivative_operator=dop, dealiasing_fraction=2 / 3, injection_mode=1, injection_scale=0.7)
+        nl = ex.nonlin_fun.ProjectedConvection3dKolmogorov(3, N, derivative_operator=dop, dealiasing_fraction=frac, injection_mode=1, injection_scale=0.7)
     else:
-        nl = ex.nonlin_fun.ProjectedConvection3d(3, N, derivative_operator=dop, dealiasing_fraction=2 / 3)
+        nl = ex.nonlin_fun.ProjectedConvection3d(3, N, derivative_operator=dop, dealiasing_fraction=frac)
     uh = ex.fft(jnp.asarray(rng.standard_normal((3,) + (N,) * 3)))
     out = nl(uh)
     div = np.max(np.abs(divergence_hat(out, 3, L, N))) / (1e-300 + np.max(np.abs(np.asarray(dop))) * max(1.0, np.max(np.abs(np.asarray(out)))))
     return div < 1e-10, f"projected convection (kolmogorov={kolmogorov}) N={N} L={L}: relative divergence {div:.2e}"
 
 
-def t_stepper_preserves(cls, N, L, order, steps, seed):
+def t_stepper_preserves(cls, N, L, order, steps, seed, frac=2 / 3):
     ex, jnp = _ex()
     rng = np.random.default_rng(seed)
-    kw = dict(order=order, diffusivity=0.02, drag=-0.05)
+    kw = dict(order=order, diffusivity=0.02, drag=-0.05, dealiasing_fraction=frac)
     if cls == "KolmogorovFlowVelocity":
         s = ex.stepper.KolmogorovFlowVelocity(3, L, N, 0.05, injection_mode=1, injection_scale=0.5, **kw)
     else:
@@ -129,7 +129,7 @@ def t_stepper_preserves(cls, N, L, order, steps, seed):
         uh = ex.fft(u)
         dop = np.asarray(ex.spectral.build_derivative_operator(3, L, N))
         worst = max(worst, np.max(np.abs(divergence_hat(uh, 3, L, N))) / (np.max(np.abs(dop)) * max(1e-300, np.max(np.abs(np.asarray(uh))))))
-    return worst < 1e-10, f"{cls} order {order} N={N} L={L}: relative divergence after {steps} steps {worst:.2e}"
+    return worst < 1e-10, f"{cls} order {order} N={N} L={L} dealiasing_fraction={frac}: relative divergence after {steps} steps {worst:.2e}"
 
 
 TESTS = dict(projection=t_projection, convection_div_free=t_convection_div_free, stepper_preserves=t_stepper_preserves)
@@ -148,3 +148,9 @@ def witness(ctx):
         for order in ((2, 4) if not deep else (0, 1, 2, 3, 4)):
             for (N, L) in ([(6, 2 * np.pi), (7, 20.0)] if not deep else [(6, 2 * np.pi), (7, 20.0), (8, 1.0)]):
                 ctx.check("stepper_preserves", dict(cls=cls, N=N, L=L, order=order, steps=3 if not deep else 8, seed=ctx.seed))
+        # non-default dealiasing fractions (1.0 keeps everything below Nyquist; the Nyquist planes of an even grid must still be removed)
+        for frac in (1.0, 0.5):
+            for N in ((8, 7) if not deep else (6, 7, 8, 10)):
+                ctx.check("stepper_preserves", dict(cls=cls, N=N, L=3.0, order=2 if N % 2 == 0 else 3, steps=2, seed=ctx.seed, frac=frac))
+    for N in (6, 8):
+        ctx.check("convection_div_free", dict(N=N, L=3.0, seed=ctx.seed, kolmogorov=False, frac=1.0))
